@@ -30,6 +30,7 @@ type c05Query struct {
 	N     int       `json:"n"`     // size / head / tail / sort limit / page size
 	Keys  []sortKey `json:"keys"`  // sort
 	UseHd bool      `json:"useHd"` // sort … | head N instead of size
+	SortN bool      `json:"sortN,omitempty"` // the limit is the sort command's own: sort N keys / sort limit=N keys
 }
 
 type c05Case struct {
@@ -74,7 +75,14 @@ func genC05(t *rapid.T) *c05Case {
 		case 3:
 			q = c05Query{Kind: "page", N: rapid.IntRange(1, n).Draw(t, "pageSize")}
 		default:
-			q = c05Query{Kind: "sort", N: rapid.IntRange(1, n+2).Draw(t, "limit"), UseHd: rapid.Bool().Draw(t, "useHead")}
+			q = c05Query{Kind: "sort", N: rapid.IntRange(1, n+2).Draw(t, "limit")}
+			// three places a limit can come from: the request size, a following head, the sort command itself
+			switch rapid.IntRange(0, 2).Draw(t, "limitForm") {
+			case 1:
+				q.UseHd = true
+			case 2:
+				q.SortN = true
+			}
 			nk := rapid.IntRange(1, 3).Draw(t, "nKeys")
 			for k := 0; k < nk && len(names) > 0; k++ {
 				q.Keys = append(q.Keys, sortKey{
@@ -113,6 +121,13 @@ func (q c05Query) text() string {
 			parts[i] = f
 		}
 		s := "* | sort " + strings.Join(parts, ", ")
+		if q.SortN {
+			if q.N%2 == 0 {
+				s = fmt.Sprintf("* | sort %d %s", q.N, strings.Join(parts, ", "))
+			} else {
+				s = fmt.Sprintf("* | sort limit=%d %s", q.N, strings.Join(parts, ", "))
+			}
+		}
 		if q.UseHd {
 			s += fmt.Sprintf(" | head %d", q.N)
 		}
@@ -262,7 +277,7 @@ func checkC05(cs *c05Case, o *pt.Obs) error {
 				continue
 			}
 			size := len(evs) + 10
-			if q.Kind == "default" || (q.Kind == "sort" && !q.UseHd) {
+			if q.Kind == "default" || (q.Kind == "sort" && !q.UseHd && !q.SortN) {
 				size = q.N
 			}
 			sr, err := lq.Search(c, sut.Query{Index: "c05idx", Text: text, Start: lo - 1, End: hi + 1, Size: size})
@@ -346,6 +361,12 @@ func checkC05(cs *c05Case, o *pt.Obs) error {
 			}
 			if q.Kind == "sort" && len(q.Keys) >= 2 {
 				o.Class("sort_multikey")
+			}
+			if q.Kind == "sort" && q.SortN {
+				o.Class("sort_own_limit")
+				if q.N < len(evs) && flushes >= 3 && cs.Layout.GoMaxProcs >= 2 && cs.Layout.GoMaxProcs < flushes {
+					o.Class("sort_own_limit_parallel_chains")
+				}
 			}
 		}
 		return nil
